@@ -708,6 +708,78 @@ def lifecycle(ctx, rng, cell, family, lc):
         gate.set()
 
 
+def concurrent_close(ctx, rng, cell, family):
+    """server_close() called again (by another thread) while a first server_close() is still waiting for in-flight
+    requests: whichever call returns, returns from a CLOSED server - the in-flight requests are answered, the listening
+    socket is closed and the workers of the request pool are gone."""
+    import jsonrpclib
+    gate = threading.Event()
+    sut = SrvUnderTest(cell, family, gate)
+    case = {"cell": [cell[0], cell[1]], "family": family, "scenario": "second-close-during-the-first"}
+    ctx.cell(cell[0], "pool%s" % cell[1], family, "concurrent-close")
+    ctx.case(("concurrent-close", cell, family), nontrivial=True)
+    sut.srv.start()
+    flyers = []
+
+    def flyer(i):
+        p = jsonrpclib.ServerProxy(sut.srv.url)
+        try:
+            out = p.gated("g%d" % i)
+            flyers.append(out["bound"]["token"] == "g%d" % i)
+        except BaseException as ex:  # noqa
+            flyers.append("raised %s" % type(ex).__name__)
+    n_in = min(2, cell[1] or 2)
+    ths = [threading.Thread(target=flyer, args=(i,), name="vf-client-flyer%d" % i) for i in range(n_in)]
+    for t in ths:
+        t.daemon = True
+        t.start()
+    t0 = time.monotonic()
+    while sut.in_gate[0] < n_in and time.monotonic() - t0 < 60:
+        time.sleep(0.002)
+    if sut.in_gate[0] < n_in:
+        ctx.unsure("concurrent-close scenario not established")
+        gate.set()
+        lifecycle_close(ctx, sut, case, ["shutdown", "server_close"], "concurrent-close")
+        return
+    server = sut.srv.server
+    server.shutdown()
+    returned = {}
+
+    def closer(name):
+        try:
+            server.server_close()
+            returned[name] = {"gate_open": gate.is_set(), "answered": len(flyers),
+                              "workers": [t.name for t in sut.pool_workers()]}
+        except BaseException as ex:  # noqa
+            returned[name] = {"raised": repr(ex)}
+    a = threading.Thread(target=closer, args=("first",), name="vf-controller-close-a")
+    b = threading.Thread(target=closer, args=("second",), name="vf-controller-close-b")
+    for t, pause in ((a, 0.15), (b, 0.25)):
+        t.daemon = True
+        t.start()
+        time.sleep(pause)
+    early = {k: v for k, v in returned.items() if not v.get("gate_open", True)}
+    gate.set()
+    for t in (a, b):
+        t.join(60)
+    for t in ths:
+        t.join(60)
+    ctx.count("judged:concurrent-closes")
+    if a.is_alive() or b.is_alive():
+        ctx.violate("server_close-did-not-return:pooled:second-close-during-the-first", case,
+                    {"stacks": poolmon.thread_stacks(sut.poolname)})
+        return
+    for name, info in returned.items():
+        if "raised" in info:
+            ctx.violate("server_close-raised:pooled:second-close-during-the-first", case, {name: info})
+    if early:
+        ctx.violate("server_close-returned-before-the-in-flight-requests-completed:second-close-during-the-first", case,
+                    {"returned_early": early})
+    if flyers != [True] * n_in:
+        ctx.violate("in-flight-request-lost-at-close:" + cell[0], case, {"replies": flyers})
+    lifecycle_close(ctx, sut, case, ["server_close"], "after-concurrent-closes")
+
+
 def run(ctx):
     import jsonrpclib.SimpleJSONRPCServer as S
     import jsonrpclib.jsonrpc as J
@@ -761,6 +833,15 @@ def run(ctx):
             n += 1
             if ctx.mine(n):
                 keepalive_workload(ctx, rng, cell, fam)
+    # 1d. a second server_close() while the first one waits for in-flight requests (pooled servers)
+    n = 0
+    for rep in range(ctx.pick(1, 8)):
+        for cell, fam in combos:
+            if cell[0] != "pooled" or cell[1] in BOUNDED_QUEUE:
+                continue
+            n += 1
+            if ctx.mine(n):
+                concurrent_close(ctx, rng, cell, fam)
     # 2. lifecycles
     n = 0
     for rep in range(ctx.pick(1, 16)):
